@@ -261,7 +261,7 @@ def plan(ctx):
         ni = rng.randrange(0, 6)
         items = rng.sample(range(100), ni)
         poison = [rng.choice(items)] if items and rng.random() < 0.3 else []
-        pol, knobs = draw_env(rng, tcp=(kind == 'premote'))
+        pol, knobs = draw_env(rng, tcp=(kind == 'premote'), adversarial_ok=True)
         fault = None
         r = rng.random()
         lst = pts.get((kind, 2)) or []
@@ -290,7 +290,7 @@ def smoke_cases(ctx, n):
     for i in range(n):
         kind = rng.choice(PKINDS)
         items = rng.sample(range(100), rng.randrange(0, 5))
-        pol, knobs = draw_env(rng, tcp=(kind == 'premote'))
+        pol, knobs = draw_env(rng, tcp=(kind == 'premote'), adversarial_ok=True)
         fault = None
         if kind != 'pthread' and rng.random() < 0.5:
             fault = {'kind': 'sigkill', 'role': None, 'thread': None, 'nline': rng.randrange(10, 200)}
